@@ -88,7 +88,7 @@ func c18() {
 	}
 	ctxs := []*archCtx{mk("", "x86_64", "i386"), mk("386", "i386", "x86_64")}
 
-	n := run.N(70, 2000)
+	n := run.N(210, 4000)
 	var mu sync.Mutex
 	distinct := map[string]bool{}
 	sizes := map[string]int64{}
